@@ -397,8 +397,12 @@ struct SpyAllocator : ArduinoJson::Allocator {
     if (fail_from >= 0 && (long)k >= fail_from) return true;
     return k < fail.size() && fail[k];
   }
+  // failure by size: the first `sizeFailAfter` allocations of exactly `sizeFail` bytes succeed, the later ones fail
+  // (used to refuse pool blocks — whose size is known — while strings and the pool table can still be had)
+  size_t sizeFail = 0; long sizeFailAfter = 0, sizeSeen = 0;
   void* allocate(size_t n) override {
     bool f = shouldFail(true);
+    if (sizeFail && n == sizeFail && sizeSeen++ >= sizeFailAfter) f = true;
     requested += n;
     if (master) master->log.push_back({'a', n, 0, !f});
     if (f) { log.push_back({'a', n, 0, false}); return nullptr; }
